@@ -540,7 +540,7 @@ impl<C: CrcCalculator> Encapsulator<C> {
         let encap_status: EncapStatus;
         // End packet
         // if the rest of packet fits in the buffer
-        if buffer_len >= gse_end_len + FIXED_HEADER_LEN {
+        if buffer_len >= gse_end_len + FIXED_HEADER_LEN && gse_end_len <= GSE_LEN_MAX {
             header =
                 generate_gse_header(&PktType::EndFragPkt, &LabelType::ReUse, gse_end_len as u16);
             pdu_len_encapsulated = pdu_len_remaining;
@@ -552,10 +552,13 @@ impl<C: CrcCalculator> Encapsulator<C> {
             encap_status = EncapStatus::CompletedPkt(buffer_offset as u16);
         }
         // if a fragment of the rest fits in the buffer
-        else if buffer_len > FIXED_HEADER_LEN + FRAG_ID_LEN {
+        else if buffer_len > FIXED_HEADER_LEN + FRAG_ID_LEN && pdu_len_remaining > 0 {
             let gse_len: usize;
 
-            let pdu_len_available = buffer_len - (FIXED_HEADER_LEN + FRAG_ID_LEN);
+            let pdu_len_available = std::cmp::min(
+                buffer_len - (FIXED_HEADER_LEN + FRAG_ID_LEN),
+                GSE_LEN_MAX - FRAG_ID_LEN,
+            );
 
             if pdu_len_available > pdu_len_remaining {
                 gse_len = FRAG_ID_LEN + pdu_len_remaining;
@@ -954,7 +957,7 @@ pub fn encap_frag_preview(
     let pkt_len: u16;
     // End packet
     // if the rest of packet fits in the buffer
-    if buffer_len >= gse_end_len + FIXED_HEADER_LEN {
+    if buffer_len >= gse_end_len + FIXED_HEADER_LEN && gse_end_len <= GSE_LEN_MAX {
         pdu_len_encapsulated = pdu_len_remaining;
 
         let mut buffer_offset = FIXED_HEADER_LEN + FRAG_ID_LEN + pdu_len_encapsulated;
@@ -964,10 +967,13 @@ pub fn encap_frag_preview(
         pkt_len = buffer_offset as u16;
     }
     // if a fragment of the rest fits in the buffer
-    else if buffer_len > FIXED_HEADER_LEN + FRAG_ID_LEN {
+    else if buffer_len > FIXED_HEADER_LEN + FRAG_ID_LEN && pdu_len_remaining > 0 {
         let gse_len: usize;
 
-        let pdu_len_available = buffer_len - (FIXED_HEADER_LEN + FRAG_ID_LEN);
+        let pdu_len_available = std::cmp::min(
+            buffer_len - (FIXED_HEADER_LEN + FRAG_ID_LEN),
+            GSE_LEN_MAX - FRAG_ID_LEN,
+        );
 
         if pdu_len_available > pdu_len_remaining {
             gse_len = FRAG_ID_LEN + pdu_len_remaining;
